@@ -29,10 +29,15 @@ theorem parseData_shape (k : Kcp) (s : Seg) :
   split; · exact ⟨k.rcv_queue, k.rcv_buf, k.rcv_nxt, rfl⟩
   exact ⟨_, _, _, rfl⟩
 
+/-- `shrink_buf` can change `snd_buf` (it drops acknowledged heads) and `snd_una` only -/
+theorem shrinkBuf_shape (k : Kcp) : ∃ b u, shrinkBuf k = { k with snd_buf := b, snd_una := u } := by
+  unfold shrinkBuf
+  split <;> exact ⟨_, _, rfl⟩
+
 theorem shrinkUna_shape (k : Kcp) (una : U32) :
     ∃ b u, shrinkBuf (parseUna k una).1 = { k with snd_buf := b, snd_una := u } := by
-  unfold shrinkBuf parseUna
-  split <;> exact ⟨_, _, rfl⟩
+  obtain ⟨b, u, e⟩ := shrinkBuf_shape (parseUna k una).1
+  exact ⟨b, u, by rw [e]; rfl⟩
 
 theorem parseAck_shape (k : Kcp) (sn : U32) : ∃ b, parseAck k sn = { k with snd_buf := b } := by
   unfold parseAck; split
@@ -72,9 +77,10 @@ theorem inAck_shape (st : InLoop) (sn ts : U32) : LoopShape st.k (inAck st sn ts
   unfold inAck
   simp only []
   obtain ⟨b1, e1⟩ := parseAck_shape st.k sn
-  obtain ⟨b2, e2⟩ := parseFastack_shape (parseAck st.k sn) sn ts
-  rw [e2, e1]
-  exact ⟨st.k.rmt_wnd, b2, st.k.snd_una, st.k.acklist, st.k.rcv_queue, st.k.rcv_buf, st.k.rcv_nxt, st.k.probe, rfl⟩
+  obtain ⟨b2, u2, e2⟩ := shrinkBuf_shape (parseAck st.k sn)
+  obtain ⟨b3, e3⟩ := parseFastack_shape (shrinkBuf (parseAck st.k sn)) sn ts
+  rw [e3, e2, e1]
+  exact ⟨st.k.rmt_wnd, b3, u2, st.k.acklist, st.k.rcv_queue, st.k.rcv_buf, st.k.rcv_nxt, st.k.probe, rfl⟩
 
 theorem inPush_shape (st : InLoop) (seg : Seg) : LoopShape st.k (inPush st seg).k := by
   unfold inPush
